@@ -350,6 +350,14 @@ fn all_schedules() -> Vec<String> {
     out
 }
 
+/// Directories a failed generation left next to the output path. The sandbox holds nothing but `out`,
+/// so any other directory is a staging (or backup) directory by role, whatever it is called.
+fn leftover_dirs(sb: &std::path::Path) -> Vec<String> {
+    std::fs::read_dir(sb)
+        .map(|rd| rd.flatten().filter(|e| e.path().is_dir() && e.file_name() != "out").map(|e| e.file_name().to_string_lossy().to_string()).collect())
+        .unwrap_or_default()
+}
+
 pub fn run(ctx: &Ctx) {
     ctx.set_level("fault_enumeration");
     let rounds = ctx.tier.pick(3usize, 40);
@@ -462,7 +470,7 @@ pub fn run(ctx: &Ctx) {
                         if res.ret_ok != Some(false) {
                             t.violation("C23:failed-generation-reports-success", format!("generation with an injected failure at stage {} returned {:?}", stage, res.ret_ok), case.clone());
                         }
-                        let leftovers: Vec<String> = std::fs::read_dir(&sb).map(|rd| rd.flatten().map(|e| e.file_name().to_string_lossy().to_string()).filter(|n| n.contains(".staging-")).collect()).unwrap_or_default();
+                        let leftovers: Vec<String> = leftover_dirs(&sb);
                         if !leftovers.is_empty() {
                             t.violation("C23:staging-left-behind", format!("failed generation (stage {}) left {:?} behind", stage, leftovers), case.clone());
                         }
@@ -518,7 +526,7 @@ pub fn run(ctx: &Ctx) {
                                     _ => !out.exists(),
                                 };
                                 let new_complete = read_tree(&out).map(|t| t.keys().cloned().collect::<Vec<_>>() == full_set).unwrap_or(false);
-                                let leftovers: Vec<String> = std::fs::read_dir(&sb).map(|rd| rd.flatten().map(|e| e.file_name().to_string_lossy().to_string()).filter(|n| n.contains(".staging-")).collect()).unwrap_or_default();
+                                let leftovers: Vec<String> = leftover_dirs(&sb);
                                 match res.ret_ok {
                                     Some(true) => {
                                         if !new_complete {
